@@ -43,6 +43,10 @@ func (m c09Msg) in() inMsg {
 		from = netip.MustParseAddr("fe80::2").WithZone("eth0")
 	case "NS":
 		msg = &ndp.NeighborSolicitation{TargetAddress: netip.MustParseAddr("fe80::9")}
+	case "NS0":
+		// A duplicate-address-detection probe: neighbor solicitation from the unspecified address.
+		msg = &ndp.NeighborSolicitation{TargetAddress: netip.MustParseAddr("fe80::9")}
+		from = netip.MustParseAddr("::").WithZone("eth0")
 	case "NA":
 		msg = &ndp.NeighborAdvertisement{TargetAddress: netip.MustParseAddr("fe80::9")}
 	}
@@ -50,7 +54,7 @@ func (m c09Msg) in() inMsg {
 }
 
 func (m c09Msg) typeLabel() string {
-	return map[string]string{"RS": "router solicitation", "RA": "router advertisement", "NS": "neighbor solicitation", "NA": "neighbor advertisement"}[m.Type]
+	return map[string]string{"RS": "router solicitation", "RA": "router advertisement", "NS": "neighbor solicitation", "NS0": "neighbor solicitation", "NA": "neighbor advertisement"}[m.Type]
 }
 
 type c09Case struct {
@@ -227,6 +231,13 @@ func c09Check(c c09Case, x *vsched.Exec, res *c09Result) (out [][2]string) {
 		if w.T > 5*time.Second && !isAllNodes(w.Dst) {
 			gotU++
 		}
+		// No periodic RA is due during the script (intervals of 200-600 s; the first one,
+		// capped at 16 s, comes after it) and no message of the alphabet is a solicitation
+		// from the unspecified address: a multicast RA now was triggered by an invalid message.
+		if w.T > 5*time.Second && isAllNodes(w.Dst) {
+			bad("C09:invalid-triggered-ra", "a multicast RA was transmitted at %s although nothing valid asked for one", w.T)
+			break
+		}
 	}
 	if gotU != wantUnicast {
 		sig := "C09:valid-not-served"
@@ -293,7 +304,7 @@ func TestVerifC09(t *testing.T) {
 		}
 	}
 	for _, mon := range []bool{false, true} {
-		for _, typ := range []string{"RS", "RA", "NS", "NA"} {
+		for _, typ := range []string{"RS", "RA", "NS", "NS0", "NA"} {
 			for h := 0; h <= 255; h++ {
 				if !r.Thorough() && h > 3 && h < 252 && h != 64 && h != 128 {
 					continue
@@ -329,7 +340,7 @@ func TestVerifC09(t *testing.T) {
 				}
 			}
 		}
-		alpha := []c09Msg{{"RS", 255}, {"RS", 64}, {"NS", 255}, {"RA", 1}, {"TO", 0}}
+		alpha := []c09Msg{{"RS", 255}, {"RS", 64}, {"NS", 255}, {"NS0", 255}, {"RA", 1}, {"TO", 0}}
 		enum.Sequences(len(alpha), L, func(seq []int) bool {
 			if len(seq) == 0 {
 				return true
